@@ -424,6 +424,51 @@ def interp (p : Program) : Nat → List El → Option (List Glyph)
         let seq := (if abc.2.1 then [x] else []) ++ [El.ch z] ++ (if abc.2.2 then [y] else []) ++ tail
         (interp p fuel (seq.drop abc.1)).map ((seq.take abc.1).flatMap El.emit ++ ·)
 
+/-! ### S with node types
+
+TeX makes a *ligature node* of exactly the characters that a lig/kern instruction inserted
+(TeX82 §1040: every ligature command puts the new character where `ligature_present` will
+be true when it is wrapped up, §1035 `pack_lig`); characters of the word that are only
+passed over stay character nodes. `interpT` is `interp` on elements that carry that flag. -/
+
+inductive TGlyph
+  | glyph (c : Nat) (lig : Bool)
+  | kern (k : Int)
+  deriving DecidableEq, Repr, Inhabited
+
+def emitT : El × Bool → List TGlyph
+  | (.ch c, b) => [.glyph c b]
+  | _ => []
+
+def interpT (p : Program) : Nat → List (El × Bool) → Option (List TGlyph)
+  | 0, _ => none
+  | _ + 1, [] => some []
+  | _ + 1, [x] => some (emitT x)
+  | fuel + 1, x :: y :: tail =>
+    match x.1 with
+    | .rb => some []
+    | _ =>
+      let right : Option Nat := match y.1 with
+        | .ch c => some c
+        | .rb => p.rb
+        | .lb => none
+      match right.bind (specRule p x.1.left) with
+      | none => (interpT p fuel (y :: tail)).map (emitT x ++ ·)
+      | some (.kern k) => (interpT p fuel (y :: tail)).map (emitT x ++ TGlyph.kern k :: ·)
+      | some (.lig z post) =>
+        let abc := post.abc
+        let seq := (if abc.2.1 then [x] else []) ++ [(El.ch z, true)] ++ (if abc.2.2 then [y] else []) ++ tail
+        (interpT p fuel (seq.drop abc.1)).map ((seq.take abc.1).flatMap emitT ++ ·)
+
+def TGlyph.erase : TGlyph → Glyph
+  | .glyph c _ => .glyph c
+  | .kern k => .kern k
+
+def Item.tglyph : Item → TGlyph
+  | .ch c => .glyph c false
+  | .kern k => .kern k
+  | .lig c _ _ _ => .glyph c true
+
 /-- The sequence for a word: left boundary always (TeX starts every word with
 `cur_l = non_char` and the font's left-boundary program), right boundary iff the font has
 a boundary character. -/
